@@ -1,8 +1,10 @@
 """Simulated disk behind the only file-writing code of the package that an analysis runs: the MPhys solution
 writers (openaerostruct/mphys/surface_contours.py, lift_distribution.py), which call the built-in ``open`` once per
 evaluation. The seam is the module namespace: a module-level name ``open`` shadows the built-in, so no hook in /repo is
-needed and nothing outside those two modules is affected. Paths below ROOT live in memory; everything else goes to the
-real ``open``.
+needed and nothing outside those two modules is affected. Output directories are *real*, empty directories below the
+run's scratch directory (so that chdir / exists / join on them behave as on any disk); whatever is opened for writing
+inside one of them - by absolute or by relative path - is kept in memory by a complete text-file object; everything else
+goes to the real ``open``.
 
 Faults (armed per output directory, so one tenant's full disk is not another's):
   enoent  - the directory is gone: open() raises FileNotFoundError
@@ -13,49 +15,55 @@ No randomness and no clock in here: what happens is decided by the caller's seed
 """
 import builtins
 import errno
+import io
 import os
 import re
 
 import numpy as np
 
-ROOT = "/simdisk/"
 KEEP = 12  # completed files remembered per directory (finite-difference excursions write hundreds)
 
 _REAL_OPEN = builtins.open
 DISK = None
 
 
-class _Handle:
+def _root():
+    from . import core
+
+    return os.path.join(core.scratch_dir() or os.getcwd(), "simdisk")
+
+
+class _Handle(io.StringIO):
+    """A text file opened for writing: everything io.StringIO offers (write, writelines, print(file=...), context
+    manager, tell ...), with the character budget of a filling disk."""
+
     def __init__(self, disk, path, budget):
+        super().__init__()
         self.disk, self.path, self.budget = disk, path, budget
-        self.parts = []
-        self.n = 0
-        self.closed = False
+        self._n = 0
+        self._done = False
 
     def write(self, s):
-        if self.closed:
-            raise ValueError("I/O operation on closed file.")
-        if self.budget is not None and self.n + len(s) > self.budget:
-            room = max(0, self.budget - self.n)
-            self.parts.append(s[:room])
-            self.n += room
-            self.disk._torn(self)
+        if self.budget is not None and self._n + len(s) > self.budget:
+            room = max(0, self.budget - self._n)
+            super().write(s[:room])
+            self._n += room
+            if not self._done:
+                self._done = True
+                self.disk._torn(self)
             raise OSError(errno.ENOSPC, os.strerror(errno.ENOSPC), self.path)
-        self.parts.append(s)
-        self.n += len(s)
-        return len(s)
+        self._n += len(s)
+        return super().write(s)
+
+    def writelines(self, lines):
+        for ln in lines:
+            self.write(ln)
 
     def close(self):
-        if not self.closed:
-            self.closed = True
-            self.disk._completed(self)
-
-    def __enter__(self):
-        return self
-
-    def __exit__(self, *exc):
-        self.close()
-        return False
+        if not self.closed and not self._done:
+            self._done = True
+            self.disk._completed(self, self.getvalue())
+        super().close()
 
 
 class SimDisk:
@@ -69,11 +77,15 @@ class SimDisk:
         self._next_dir = 0
 
     def mkdir(self):
-        d = "%sd%d" % (ROOT, self._next_dir)
+        d = os.path.join(_root(), "d%d" % self._next_dir)
         self._next_dir += 1
+        os.makedirs(d, exist_ok=True)
         self.dirs[d] = []
         self.torn[d] = 0
         return d
+
+    def owns(self, path):
+        return os.path.dirname(path) in self.dirs
 
     def arm(self, directory, kind, after=None):
         self.armed[directory] = {"kind": kind, "after": after}
@@ -90,11 +102,8 @@ class SimDisk:
 
     def open(self, path, mode="r", *a, **kw):
         directory, name = os.path.split(path)
-        if "w" not in mode:
+        if "w" not in mode and "a" not in mode and "x" not in mode:
             raise OSError(errno.EINVAL, "simulated disk is write-only", path)
-        if directory not in self.dirs:
-            self._event(directory, name, "enoent")
-            raise FileNotFoundError(errno.ENOENT, os.strerror(errno.ENOENT), path)
         f = self.armed.get(directory)
         budget = None
         if f is not None:
@@ -108,10 +117,10 @@ class SimDisk:
                 budget = int(f["after"])
         return _Handle(self, path, budget)
 
-    def _completed(self, h):
+    def _completed(self, h, text):
         directory, name = os.path.split(h.path)
         lst = self.dirs[directory]
-        lst.append((name, "".join(h.parts)))
+        lst.append((name, text))
         if len(lst) > KEEP:
             del lst[: len(lst) - KEEP]
         self._event(directory, name, "ok")
@@ -122,10 +131,12 @@ class SimDisk:
         self._event(directory, name, "torn")
 
 
-def _open(path, *a, **kw):
-    if DISK is not None and isinstance(path, str) and path.startswith(ROOT):
-        return DISK.open(path, *a, **kw)
-    return _REAL_OPEN(path, *a, **kw)
+def _open(path, mode="r", *a, **kw):
+    if DISK is not None and isinstance(path, (str, os.PathLike)) and any(c in mode for c in "wax"):
+        full = os.path.abspath(os.fspath(path))  # a bare file name after a chdir into the directory counts too
+        if DISK.owns(full):
+            return DISK.open(full, mode, *a, **kw)
+    return _REAL_OPEN(path, mode, *a, **kw)
 
 
 def install():
